@@ -32,6 +32,8 @@ CONFIGS = [
               'graceful_restart': False, 'cisco_multi_session': False, 'add_path': None, 'afi_safi': [[1, 1]]}},
     # TCP MD5 signatures configured (a password that is not ASCII), retry timer shorter than the 30 s TCP connect timeout
     {'md5': 'p\u00e4ssw\u00f6rd', 'connect_retry_time': 8, 'idle_hold_time': 3},
+    # no damping at all: the idle-hold time is 0 (a reconnect is due the moment the previous attempt or session ended)
+    {'idle_hold_time': 0, 'connect_retry_time': 8, 'hold_time': 30},
 ]
 
 
@@ -379,7 +381,8 @@ def slow_peer(driver, res, r, tier):
     with attempts still in flight, then the operator stops the peer - and only THEN the old handshakes complete, oldest
     first, each answered by the peer's OPEN; later the operator starts the peer again.  Lockstep with the model; the Monitor
     judges C12 (one attempt at a time) and C13 (nothing is sent, nothing connects after the stop) on every step."""
-    for conf in ({}, {'connect_retry_time': 8, 'idle_hold_time': 3}, {'hold_time': 9, 'connect_retry_time': 45, 'idle_hold_time': 5}):
+    for conf in ({}, {'connect_retry_time': 8, 'idle_hold_time': 3}, {'hold_time': 9, 'connect_retry_time': 45, 'idle_hold_time': 5},
+                 {'idle_hold_time': 0, 'connect_retry_time': 8}):
         full = dict(S.DEFAULT_CFG); full.update(conf)
         pool = dict(SG.message_pool(full['remote_as']))
         for nretry in (1, 2, 3):
